@@ -132,6 +132,26 @@ func systematicPkgCases(id *int, profile, scratch string, rng *rand.Rand, tier s
 			c.IpkPredepends = []string{"ipre1"}
 			add(c, smallTree(), "rel")
 		}
+		// version ranges: the same package named twice with different constraints, exact duplicates, same name bare and versioned
+		for i := 0; i < 6; i++ {
+			c := baseCfg("rangepkg")
+			l := []string{"libfoo >= 1.2", "libfoo < 2.0", "libbar", "libbar >= 3", "libdup = 1", "libdup = 1", "zeta > 1", "zeta > 2"}
+			switch i {
+			case 0:
+				c.Depends = l
+			case 1:
+				c.Recommends = l
+			case 2:
+				c.Suggests = l
+			case 3:
+				c.Conflicts = l
+			case 4:
+				c.Replaces = l
+			case 5:
+				c.Provides = l
+			}
+			add(c, smallTree(), "rel-range")
+		}
 		// changelog notes with several lines; upper-case prerelease; metadata containing a dash
 		{
 			c := baseCfg("chlogpkg")
